@@ -119,11 +119,15 @@ for d in sorted(glob.glob('/verif/seeded/C*-*')):
         what = what[:167] + '...'
     fired = m.get('checks_that_fired') or []
     own = m.get('own_check_fired')
+    if m.get('superseded'):
+        rows.append((key, what, 'n/a (superseded)', 'n/a', 'no longer a violation on the repaired tree: ' + m['superseded'][:160]))
+        continue
     rows.append((key, what, 'yes' if own else 'no', ' '.join(fired), STRENGTHENED.get(key, '')))
 print('| seeded change | what it does | own check fires | checks that fired | added to the checks to catch it |')
 print('|---|---|---|---|---|')
 for r in rows:
     print('| %s | %s | %s | %s | %s |' % r)
 print()
-print('%d seeded changes, %d caught by the check of the property they were written against, %d caught by some check.' % (
-    len(rows), sum(1 for r in rows if r[2] == 'yes'), sum(1 for r in rows if r[3] and r[3] != 'none')))
+live = [r for r in rows if not r[2].startswith('n/a')]
+print('%d seeded changes (%d of them no longer violations on the repaired tree), %d of the remaining %d caught by the check of the property they were written against, %d caught by some check.' % (
+    len(rows), len(rows) - len(live), sum(1 for r in live if r[2] == 'yes'), len(live), sum(1 for r in live if r[3] and r[3] != 'none')))
